@@ -211,3 +211,61 @@ pub fn spec_header(b: &[u8]) -> Option<(usize, u128)> {
     }
     Some((i + k, v))
 }
+
+// ------------------------------------------------------------------------------------
+// Reference (independent) BER writer, front to back, fixed capacity.  Used to build expected datagrams.
+#[derive(Clone, Copy)]
+pub struct W {
+    pub b: [u8; 160],
+    pub n: usize,
+}
+
+impl W {
+    pub const fn new() -> W {
+        W { b: [0; 160], n: 0 }
+    }
+    pub fn byte(&mut self, v: u8) {
+        self.b[self.n] = v;
+        self.n += 1;
+    }
+    // no loops (memcpy of a length that is concrete in every harness): keeps harness unwind bounds small
+    pub fn bytes(&mut self, s: &[u8]) {
+        self.b[self.n..self.n + s.len()].copy_from_slice(s);
+        self.n += s.len();
+    }
+    pub fn append(&mut self, w: &W) {
+        self.b[self.n..self.n + w.n].copy_from_slice(&w.b[..w.n]);
+        self.n += w.n;
+    }
+    /// definite length, minimal form
+    pub fn header(&mut self, tag: u8, len: usize) {
+        self.byte(tag);
+        if len < 128 {
+            self.byte(len as u8);
+        } else if len < 256 {
+            self.byte(0x81);
+            self.byte(len as u8);
+        } else {
+            self.byte(0x82);
+            self.byte((len >> 8) as u8);
+            self.byte(len as u8);
+        }
+    }
+    pub fn tlv(&mut self, tag: u8, content: &W) {
+        self.header(tag, content.n);
+        self.append(content);
+    }
+    pub fn octets(&mut self, tag: u8, s: &[u8]) {
+        self.header(tag, s.len());
+        self.bytes(s);
+    }
+    pub fn int(&mut self, v: i64) {
+        let (be, n) = spec_int_content(v);
+        self.header(0x02, n);
+        let mut i = 0;
+        while i < n {
+            self.byte(be[8 - n + i]);
+            i += 1;
+        }
+    }
+}
